@@ -22,6 +22,8 @@ import EPV.Lemmas.BlakeFields
 import EPV.Lemmas.BlakeAccept
 import EPV.Tactics
 
+import EPV.Lemmas.Bridge.DetonTactics
+
 set_option linter.all false
 
 open EPV EPV.Gen EPV.Spec.Blake EPV.Blake
@@ -68,10 +70,10 @@ theorem initLG_accepts_iff (p : BlakeInitLG.P) :
     have hc1 : ¬ BlakeInitLG.c1 p := by simp only [epv_cond]; linarith
     have hc2 : BlakeInitLG.c2 p := by simp only [epv_cond]; linarith
     have hc3 : BlakeInitLG.c3 p := by simp only [epv_cond]; linarith
-    have hc4 : BlakeInitLG.c4 p := by simp only [epv_cond]; exact hgeo
-    have hc5 : BlakeInitLG.c5 p := by simp only [epv_cond]; exact hrho
-    have hc6 : BlakeInitLG.c6 p := by simp only [epv_cond]; exact hrad
-    have hc7 : BlakeInitLG.c7 p := by simp only [epv_cond]; exact hprs
+    have hc4 : BlakeInitLG.c4 p := by simp only [epv_cond]; first | exact hgeo | exact hrho | exact hrad | exact hprs
+    have hc5 : BlakeInitLG.c5 p := by simp only [epv_cond]; first | exact hgeo | exact hrho | exact hrad | exact hprs
+    have hc6 : BlakeInitLG.c6 p := by simp only [epv_cond]; first | exact hgeo | exact hrho | exact hrad | exact hprs
+    have hc7 : BlakeInitLG.c7 p := by simp only [epv_cond]; first | exact hgeo | exact hrho | exact hrad | exact hprs
     simp only [epv_tree, hc0, hc1, hc2, hc3, hc4, hc5, hc6, hc7, if_true, if_false, ite_self]
 
 /-- pair (λ, G): **the constructed solver is in the domain of the C15 field theorems** — the attributes `_run` reads
@@ -144,14 +146,16 @@ theorem initLE_accepts_iff (p : BlakeInitLE.P) :
       linarith
     have hc2 : BlakeInitLE.c2 p := by
       simp only [epv_cond]
-      rw [hR]; linarith
+      epv_deton_rpow_half_to (4 * G + 3 * L - p.youngs_mod) (rw [← h1]; linear_combination (-8 : ℝ) * hE)
+      linarith
     have hc3 : BlakeInitLE.c3 p := by
       simp only [epv_cond]
-      rw [hR]; linarith
-    have hc4 : BlakeInitLE.c4 p := by simp only [epv_cond]; exact hgeo
-    have hc5 : BlakeInitLE.c5 p := by simp only [epv_cond]; exact hrho
-    have hc6 : BlakeInitLE.c6 p := by simp only [epv_cond]; exact hrad
-    have hc7 : BlakeInitLE.c7 p := by simp only [epv_cond]; exact hprs
+      epv_deton_rpow_half_to (4 * G + 3 * L - p.youngs_mod) (rw [← h1]; linear_combination (-8 : ℝ) * hE)
+      linarith
+    have hc4 : BlakeInitLE.c4 p := by simp only [epv_cond]; first | exact hgeo | exact hrho | exact hrad | exact hprs
+    have hc5 : BlakeInitLE.c5 p := by simp only [epv_cond]; first | exact hgeo | exact hrho | exact hrad | exact hprs
+    have hc6 : BlakeInitLE.c6 p := by simp only [epv_cond]; first | exact hgeo | exact hrho | exact hrad | exact hprs
+    have hc7 : BlakeInitLE.c7 p := by simp only [epv_cond]; first | exact hgeo | exact hrho | exact hrad | exact hprs
     simp only [epv_tree, hc0, hc1, hc2, hc3, hc4, hc5, hc6, hc7, if_true, if_false, ite_self]
 
 /-- pair (λ, E): **the constructed solver is in the domain of the C15 field theorems** — the attributes `_run` reads
@@ -230,10 +234,10 @@ theorem initLNu_accepts_iff (p : BlakeInitLNu.P) :
     have hc4 : BlakeInitLNu.c4 p := by
       simp only [epv_cond]
       rw [e]; linarith
-    have hc5 : BlakeInitLNu.c5 p := by simp only [epv_cond]; exact hgeo
-    have hc6 : BlakeInitLNu.c6 p := by simp only [epv_cond]; exact hrho
-    have hc7 : BlakeInitLNu.c7 p := by simp only [epv_cond]; exact hrad
-    have hc8 : BlakeInitLNu.c8 p := by simp only [epv_cond]; exact hprs
+    have hc5 : BlakeInitLNu.c5 p := by simp only [epv_cond]; first | exact hgeo | exact hrho | exact hrad | exact hprs
+    have hc6 : BlakeInitLNu.c6 p := by simp only [epv_cond]; first | exact hgeo | exact hrho | exact hrad | exact hprs
+    have hc7 : BlakeInitLNu.c7 p := by simp only [epv_cond]; first | exact hgeo | exact hrho | exact hrad | exact hprs
+    have hc8 : BlakeInitLNu.c8 p := by simp only [epv_cond]; first | exact hgeo | exact hrho | exact hrad | exact hprs
     simp only [epv_tree, hc0, hc1, hc2, hc3, hc4, hc5, hc6, hc7, hc8, if_true, if_false, ite_self]
 
 /-- pair (λ, ν): **the constructed solver is in the domain of the C15 field theorems** — the attributes `_run` reads
@@ -309,10 +313,10 @@ theorem initLK_accepts_iff (p : BlakeInitLK.P) :
     have hc5 : BlakeInitLK.c5 p := by
       simp only [epv_cond]
       linarith
-    have hc6 : BlakeInitLK.c6 p := by simp only [epv_cond]; exact hgeo
-    have hc7 : BlakeInitLK.c7 p := by simp only [epv_cond]; exact hrho
-    have hc8 : BlakeInitLK.c8 p := by simp only [epv_cond]; exact hrad
-    have hc9 : BlakeInitLK.c9 p := by simp only [epv_cond]; exact hprs
+    have hc6 : BlakeInitLK.c6 p := by simp only [epv_cond]; first | exact hgeo | exact hrho | exact hrad | exact hprs
+    have hc7 : BlakeInitLK.c7 p := by simp only [epv_cond]; first | exact hgeo | exact hrho | exact hrad | exact hprs
+    have hc8 : BlakeInitLK.c8 p := by simp only [epv_cond]; first | exact hgeo | exact hrho | exact hrad | exact hprs
+    have hc9 : BlakeInitLK.c9 p := by simp only [epv_cond]; first | exact hgeo | exact hrho | exact hrad | exact hprs
     simp only [epv_tree, hc0, hc1, hc2, hc4, hc5, hc6, hc7, hc8, hc9, if_true, if_false, ite_self]
 
 /-- pair (λ, K): **the constructed solver is in the domain of the C15 field theorems** — the attributes `_run` reads
@@ -383,10 +387,10 @@ theorem initLM_accepts_iff (p : BlakeInitLM.P) :
     have hc3 : BlakeInitLM.c3 p := by
       simp only [epv_cond]
       linarith
-    have hc4 : BlakeInitLM.c4 p := by simp only [epv_cond]; exact hgeo
-    have hc5 : BlakeInitLM.c5 p := by simp only [epv_cond]; exact hrho
-    have hc6 : BlakeInitLM.c6 p := by simp only [epv_cond]; exact hrad
-    have hc7 : BlakeInitLM.c7 p := by simp only [epv_cond]; exact hprs
+    have hc4 : BlakeInitLM.c4 p := by simp only [epv_cond]; first | exact hgeo | exact hrho | exact hrad | exact hprs
+    have hc5 : BlakeInitLM.c5 p := by simp only [epv_cond]; first | exact hgeo | exact hrho | exact hrad | exact hprs
+    have hc6 : BlakeInitLM.c6 p := by simp only [epv_cond]; first | exact hgeo | exact hrho | exact hrad | exact hprs
+    have hc7 : BlakeInitLM.c7 p := by simp only [epv_cond]; first | exact hgeo | exact hrho | exact hrad | exact hprs
     simp only [epv_tree, hc0, hc1, hc2, hc3, hc4, hc5, hc6, hc7, if_true, if_false, ite_self]
 
 /-- pair (λ, M): **the constructed solver is in the domain of the C15 field theorems** — the attributes `_run` reads
